@@ -270,7 +270,9 @@ class Run:
         self.quiet = q
         self.emit({"e": "sendcancel", "s": self.proj.state()})
 
-    def send_signal(self, stage_ref: str, persistent: bool, name: str = "go") -> None:
+    def send_signal(self, stage_ref: str, persistent: bool, name: str | None = None) -> None:
+        self.signals_sent = getattr(self, "signals_sent", 0) + 1
+        name = name or str(self.signals_sent)      # the k-th signal sent is called "k" (identity of each signal)
         from stabilize.queue.messages import SignalStage
 
         sid = None
